@@ -1042,6 +1042,18 @@ func c17DecodeGuard(p *Prog, r *Report) {
 								setsErr = true
 							}
 						}
+						// a named function deferred directly with the address of the error result
+						if par, ok := st.Addr.(*ssa.Parameter); ok {
+							if pt, ok := par.Type().Underlying().(*types.Pointer); ok && types.Identical(pt.Elem(), errType) {
+								for i, q := range df.Params {
+									if q == par && i < len(d.Call.Args) {
+										if _, isLocal := d.Call.Args[i].(*ssa.Alloc); isLocal {
+											setsErr = true
+										}
+									}
+								}
+							}
+						}
 					}
 				})
 				// the deferred function must dominate the call: it is registered before the decode runs
